@@ -266,6 +266,7 @@ class IdentityLinearOperator(ConstantDiagLinearOperator):
         # Overwrite the to() method in _linear_operator to also convert the dtype and device saved in _kwargs.
 
         device, dtype = _to_helper(*args, **kwargs)
+        dtype = self.dtype if dtype is None else dtype
 
         new_args = []
         new_kwargs = {}
